@@ -1563,6 +1563,15 @@ pub fn c14_pretty<P: Payload + std::fmt::Display>(st: &State<P>, starts: &[H], t
                         _ => write!(w, "{:#?}", id.debug_pretty_print(&st.arena)),
                     });
                 }
+                if (si + mode as usize) % 5 == 1 {
+                    // ... nor must a print that died in a panic of the payload's own rendering
+                    crate::payload::set_display_panics(true);
+                    let _ = guarded(|| match mode {
+                        0 | 1 => format!("{}", id.debug_pretty_print(&st.arena)),
+                        _ => format!("{:?}", id.debug_pretty_print(&st.arena)),
+                    });
+                    crate::payload::set_display_panics(false);
+                }
                 let got = guarded(|| match mode {
                     0 => format!("{}", id.debug_pretty_print(&st.arena)),
                     1 => format!("{:#}", id.debug_pretty_print(&st.arena)),
